@@ -100,3 +100,40 @@ def loop_race_family():
                         continue
                     yield {'names': names, 'phens': CONFLICT, 'cache': 1000,
                            'ops': base + list(order) + list(order) + ['heal']}
+
+
+SING = [('ph', [P('s', ['0000', '0000', '0000'], [[S('eq:0')], [S('eq:1')], [S('eq:2')]], singleton=True)])]
+SING2 = [('ph', [P('s', ['0000', '0100', '0000'], [[S('eq:0')], [S('eq:1')], [S('eq:2')]], singleton=True, halt=[S('eq:9')]),
+                 P('n', ['0000', '0000'], [[S('eq:1')], [S('eq:3')]])])]
+
+
+def singleton_merged_family():
+    """singleton pattern, runs with different ids on two instances, and a SYNC that merges a backlog (a completion or halt of
+    the sender's own run) with newer progress of the receiver's run, which the sender had adopted in the meantime."""
+    for fin in (['in B 1', 'in B 2'], ['in B 9']):
+        for fail in ('down', 'dup'):
+            for phens in (SING, SING2):
+                ops = ['pass A', 'pass B', 'del A B', 'del B A', 'pass A', 'pass B', 'del A B', 'del B A']   # first contact
+                ops += [f'{fail} B A', 'in B 0', 'pass B'] + (['del B A'] if fail == 'dup' else [])
+                ops += fin + ['pass B', 'pass B']                       # B's own run finishes; its sends to A fail: backlog
+                ops += ['up B A', 'in A 0', 'pass A', 'del A B', 'in B 1', 'tick 6', 'pass B', 'del B A', 'del B A']
+                ops += ['in A 1', 'in A 2', 'in A 0', 'heal']
+                yield {'names': ['A', 'B'], 'phens': phens, 'cache': 1000, 'ops': ops}
+
+
+def repeated_failure_family():
+    """two or three consecutive failed SYNCs towards ONE peer carrying successive states of the same run (the link heals
+    before the resync period and the run does not finish afterwards): the backlog must deliver the newest state."""
+    for names in (['A', 'B'], ['A', 'B', 'C']):
+        victim = names[-1]
+        for steps in (['in A 1', 'in A 1'], ['in A 1', 'in A 2'], ['in A 1', 'in A 1', 'in A 2'], ['in A 2', 'in A 0']):
+            for fail in ('down', 'dup'):
+                ops = ['in A 0', 'sync']
+                for st in steps:
+                    ops += ([f'{fail} A {victim}'] if (fail == 'dup' or st is steps[0]) else []) + [st, 'pass A']
+                    if fail == 'dup':
+                        ops += [f'del A {victim}']
+                    for other in names[1:-1]:
+                        ops += [f'del A {other}']
+                ops += [f'up A {victim}', 'tick 6', 'pass A', f'del A {victim}', f'del A {victim}', 'heal']
+                yield {'names': names, 'phens': CONFLICT, 'cache': 1000, 'ops': ops}
